@@ -590,7 +590,38 @@ func c13Enumerate(cx *h.Ctx, yield func(C13Case)) []string {
 		}
 	}
 	rec(0, nil)
-	return []string{"every subset of 1..6 points of the 4x4 integer grid (14892 sets), as a MultiPoint and in reverse order"}
+	// wide inputs: k points in convex position on a parabola (every one is a hull vertex), with the chord
+	// midpoints of neighbours thrown in (collinear with nothing, strictly inside), as points and as the
+	// vertices of k two-point lines; the second spelling lists them in another order
+	for _, k := range []int{127, 128, 129, 255, 256, 257, 1000} {
+		var pts [][2]float64
+		for i := 0; i < k; i++ {
+			x := float64(i - k/2)
+			pts = append(pts, [2]float64{2 * x, 2 * x * x})
+		}
+		for i := 0; i+1 < k; i += 3 {
+			pts = append(pts, [2]float64{(pts[i][0] + pts[i+1][0]) / 2, (pts[i][1]+pts[i+1][1])/2 + 1})
+		}
+		mp, perm := gm.G{T: gm.MultiPoint}, gm.G{T: gm.MultiPoint}
+		for i := range pts {
+			j := (i*7 + 3) % len(pts)
+			if len(pts)%7 == 0 {
+				j = len(pts) - 1 - i
+			}
+			mp.Mem = append(mp.Mem, gm.G{T: gm.Point, Co: gm.Fs(pts[i][0], pts[i][1])})
+			perm.Mem = append(perm.Mem, gm.G{T: gm.Point, Co: gm.Fs(pts[j][0], pts[j][1])})
+		}
+		yield(C13Case{G: mp, Perm: perm, Family: "enumerated"})
+		ml, mlp := gm.G{T: gm.MultiLineString}, gm.G{T: gm.MultiLineString}
+		for i := 0; i+1 < len(pts); i += 2 {
+			l := gm.G{T: gm.LineString, Co: gm.Fs(pts[i][0], pts[i][1], pts[i+1][0], pts[i+1][1])}
+			ml.Mem = append(ml.Mem, l)
+			mlp.Mem = append([]gm.G{{T: gm.LineString, Co: gm.Fs(pts[i+1][0], pts[i+1][1], pts[i][0], pts[i][1])}}, mlp.Mem...)
+		}
+		yield(C13Case{G: ml, Perm: mlp, Family: "enumerated"})
+	}
+	return []string{"every subset of 1..6 points of the 4x4 integer grid (14892 sets), as a MultiPoint and in reverse order",
+		"127..257 and 1000 points in convex position on a parabola plus interior points, as a MultiPoint and as two-point lines, in two orders"}
 }
 
 func TestC13(t *testing.T) {
